@@ -275,6 +275,45 @@ def section_label(callee):
     return None
 
 
+class _FnItemCallee:
+    """a function item handed to an adaptor (`.map(Gene::as_bytes)`), seen as a callee"""
+
+    def __init__(self, c):
+        self.res = c.get("res")
+        self.deff = c.get("fn")
+        self.def_args = c.get("fn_args") or c.get("val")
+        self.impl_self = None
+        self.self_ty = None
+        self.method = (self.deff or "").rsplit("::", 1)[-1]
+        self.trait = None
+        self.name = self.deff
+
+
+def section_label_of_call(prog, pv, body, t):
+    """section label of a call: the callee itself, a function item it is handed, or the unique labelled callee inside a
+    closure it is handed (`records.map(|r| r.as_bytes())`)"""
+    lab = section_label(t.callee)
+    if lab:
+        return lab
+    labs = set()
+    for a in t.args[1:] if len(t.args) > 1 else []:
+        if a.kind == "const" and "fn" in a.const:
+            l2 = section_label(_FnItemCallee(a.const))
+            if l2:
+                labs.add(l2)
+        else:
+            cid = pv.closure_of_operand(body, a)
+            cb = prog.bodies.get(cid) if cid else None
+            if cb is not None and cb.kind == "Closure":
+                for x in prog.bodies.values():
+                    if x.id == cb.id or x.id.startswith(cb.id + "::{closure"):
+                        for _, ct in x.calls():
+                            l2 = section_label(ct.callee)
+                            if l2:
+                                labs.add(l2)
+    return next(iter(labs)) if len(labs) == 1 else None
+
+
 def fields_read(prog, body, owner_rx, depth=2, _seen=None):
     """field names of ADTs matching owner_rx that are read in `body`, its closures and (to `depth`) crate callees"""
     out = set()
